@@ -3,6 +3,7 @@
 -/
 import PasfmtModel.Model.Contracts
 import PasfmtModel.Model.Cursor
+import PasfmtModel.Model.Parser
 
 namespace Pasfmt
 
@@ -113,6 +114,62 @@ def handleFmt (cfgS inpS kindsS linesS postS changedS alnumS cursorsS : String) 
       s!"marks={marksS}\tlv={showLines lines'}\tpre={pre}\tprec={prec}\tkr=1\twc={bool01 wc}\tnd={bool01 ndOk}\tcur={showList ((trackCursors cfg.settings raw ft2 cursors).map fun o => match o with | some n => toString n | none => "underflow")}\tout={toHex out}\tinfo_sr={bool01 (safeRunAllGo false ft2)}\tinfo_sn={bool01 (noSafetyNetGo false ft2)}\tinfo_cn={bool01 (canonAll ft2)}\tinfo_nn={bool01 (noNlAll ft2)}\tinfo_nt={bool01 (noTabAll ft2)}"
   | _, _, _, _, _, _, _, _ => "bad-record"
 
+def parseParent (s : String) : Option (Option LineParent) :=
+  if s == "-" then some none else
+  match s.splitOn "." with
+  | [a, b] => do
+    let a ← a.toNat?
+    let b ← b.toNat?
+    pure (some { lineIndex := a, tokenIndex := b })
+  | _ => none
+
+def parsePOp (s : String) : Option POp :=
+  if s == "N" then some .next
+  else if s == "S" then some .skip
+  else if s == "E" then some .finishEmpty
+  else if s == "U" then some .markUnfinished
+  else if s == "p" then some .popLine
+  else if s == "L" then some .pushLast
+  else if s == "l" then some .popLast
+  else if s.startsWith "F" then
+    match (s.drop 1).toString.splitOn ":" with
+    | [p, l] => do
+      let p ← parseParent p
+      let l ← l.toNat?
+      pure (.finish p l)
+    | _ => none
+  else if s.startsWith "P" then do
+    let p ← parseParent (s.drop 1).toString
+    match p with
+    | some p => pure (.pushLine p)
+    | none => none
+  else if s.startsWith "T" then (LogicalLineType.ofRust (s.drop 1).toString).map .setType
+  else none
+
+def parsePassOps (s : String) : Option (List Nat × List POp) :=
+  match s.splitOn "|" with
+  | [toks, ops] => do
+    let toks ← (parseList toks ",").mapM String.toNat?
+    let ops ← (parseList ops " ").mapM parsePOp
+    pure (toks, ops)
+  | _ => none
+
+def showPLine (l : PLine) : String :=
+  let par := match l.parent with | none => "-" | some p => s!"{p.lineIndex}.{p.tokenIndex}"
+  s!"{l.ltype.toRust}:{l.level}:{par}:{showList (l.tokens.map toString) ","}"
+
+/-- the `parse` stream: directive passes + replay of the primitive trace of every pass -/
+def handleParse (kindsS passesS : String) : String :=
+  match (parseList kindsS).mapM RawTokenType.ofRust, (parseList passesS ";").mapM parsePassOps with
+  | some kinds, some po =>
+    let ps := passes kinds
+    let passesStr := showList (ps.map fun p => showList (p.map toString) ",") ";"
+    let linesStr := match parseFile kinds po with
+      | some ls => showList (ls.map showPLine) ";"
+      | none => "machine-rejects"
+    s!"passes={passesStr}\tlines={linesStr}"
+  | _, _ => "bad-record"
+
 def handleLine (line : String) : String :=
   match line.splitOn "\t" with
   | ["lex", h] =>
@@ -130,6 +187,7 @@ def handleLine (line : String) : String :=
       | none => "model-none"
       | some toks => showRawToks toks
   | ["fmt", cfg, inp, kinds, lines, post, changed, alnum, cursors] => handleFmt cfg inp kinds lines post changed alnum cursors
+  | ["parse", kinds, passesOps] => handleParse kinds passesOps
   | _ => "bad-op"
 
 partial def loop (hin : IO.FS.Stream) (hout : IO.FS.Stream) : IO Unit := do
